@@ -103,6 +103,12 @@ SCENARIOS: list[tuple[str, list[list]]] = [
     ("auto-purge mark on an awaited, unfinished invocation",
      [["call", "tA", "a", "d", None], ["call", "tB", "a", "x", None], ["call", "tB", "b", "x", None], ["wait", "i1", ["i0"]], ["wait", "i2", ["i1"]], ["pset", "i0"],
       ["adv", "purge", 0], ["apurge"], ["set", "i1", "pending", "rB"], ["set", "i1", "running", "rB"]]),
+    ("a late history writer, then the time-range scans",
+     [["call", "tA", "a", "d", None], ["call", "tB", "a", "x", None], ["histhold", "i0", "pending", None, "rA"], ["hist", "i0", "running", None, "rA"],
+      ["hist", "i1", "pending", None, "rB"], ["histflush"], ["hist", "i0", "success", None, "rA"], ["histhold", "i1", "running", None, "rB"], ["histflush"]]),
+    ("service windows survive heartbeats",
+     [["hb", ["rA"], True], ["svc", "rA"], ["adv", "us", 5], ["hb", ["rA"], True], ["hb", ["rB"], False], ["svc", "rB"], ["adv", "us", 3], ["hb", ["rA", "rB"], True],
+      ["svc", "rA"], ["hb", ["rB"], True], ["hb", ["rA"], False]]),
     ("purge and re-use", [*BUSY, ["result", "i0", "v1"], ["cds.put", "p", True], ["cds.put", "q", False], ["purge", "app"], ["call", "tA", "a", "d", None], ["hb", ["rA"], False],
                           ["purge", "cds"], ["cds.put", "p", True], ["purge", "orch"], ["call", "tB", "b", "x", None], ["set", "i3", "pending", "rA"]]),
 ]
